@@ -184,7 +184,10 @@ class Taps(object):
 def make_fee(fee):
     if fee[0] == 'Z':
         return ZeroFeeModel()
-    return PercentFeeModel(commission_pct=fee[1], tax_pct=fee[2])
+    fm = PercentFeeModel(commission_pct=fee[1], tax_pct=fee[2])
+    # other fee-model objects exist in the process (another broker's, a parameter sweep's): each charges its own rates
+    PercentFeeModel(commission_pct=0.5, tax_pct=0.25)
+    return fm
 
 
 def execute(case):
